@@ -23,6 +23,7 @@ type Solver struct {
 	prelude string
 	timeout int // ms per check
 	qlv     [][]*Term // quantified assumptions per level
+	crossN, CrossAgree, CrossDisagree, CrossUndecided int
 	// statistics
 	Checks    int
 	TimeBy    map[string]float64
@@ -368,10 +369,30 @@ func (s *Solver) primary(goal *Term) (CheckResult, string) {
 	script := ""
 	if r != "unsat" {
 		script = s.Script(neg)
+	} else if crossCheck && s.crossN < 400 {
+		// thorough tier: a second solver must not contradict the proof
+		s.crossN++
+		t1 := time.Now()
+		out := runScript("/usr/bin/z3", []string{"-smt2", "-in", "-T:5"}, adaptScript("z3-4.8.12", s.Script(neg)))
+		s.TimeBy["z3-4.8.12/crosscheck"] += time.Since(t1).Seconds()
+		switch out {
+		case "unsat":
+			s.CrossAgree++
+		case "sat":
+			s.CrossDisagree++
+			cr = CheckResult{Res: "sat", By: "z3-4.8.12/crosscheck", Detail: "solver disagreement: z3 5.1.0 proves the obligation, z3 4.8.12 reports a counter-model"}
+			script = s.Script(neg)
+		default:
+			s.CrossUndecided++
+		}
 	}
 	s.Pop()
 	return cr, script
 }
+
+// crossCheck (GOVC_CROSSCHECK, thorough tier): every obligation instance proved by
+// the live solver is re-run on z3 4.8.12; `sat` there is reported as a violation
+var crossCheck = os.Getenv("GOVC_CROSSCHECK") != ""
 
 // fallbacks runs the other solvers on the stand-alone script; the last one is
 // the first solver again with three times the time limit, so that a machine
